@@ -185,7 +185,7 @@ PROPS["C15"] = {
                     "contract aborts with a semantic error code (empty sequence list, own chain, state-hash mismatch) are not layout failures", "current set index 2^32-1 excluded (no successor index exists)"],
     "pre": extract_contracts,
     "units": [U("TestVerif_C15_Conversions", GD, R(6000), R(400000, shards=16, timeout=1500)),
-              U("TestVerif_C15_Inject", GD, R(1500), R(100000, shards=16, timeout=1500))],
+              U("TestVerif_C15_Inject", GD, R(1500), R(100000, shards=16, timeout=1500), replay_tries=2, replay_repeat=3)],
 }
 
 PROPS["C18"] = {
